@@ -751,6 +751,442 @@ def sweep_cases(rng, registry, per_sig, only=None):
     return out, unreachable, excluded
 
 
+# ------------------------------------------------------------------------------------------------ numeric structures
+# Operators whose ARRAY arguments have to be structures of numbers (matrices: n x k, n, k > 0, every row an array of k numbers;
+# 3D vectors; positions of 2 or 3 numbers).  Implementation-only oracle, computed here from the argument trees:
+#   * a well-formed argument tuple gives exactly the mathematical result (float32, compared through the 6 printed digits);
+#   * anything else (an element that is no number - nil included - at ANY position, a row of another length, a row that is no
+#     array, an empty row / matrix, inner dimensions that do not fit) has no result: the call has to come back with a
+#     diagnostic or with nil / [].  A result that holds numbers was computed from an element that is not a number (its
+#     storage read as a float: type confusion, a read outside the object), and a crash is a crash.
+class Num:
+    def __init__(self, sqf, val):
+        self.sqf, self.val = sqf, val
+
+
+class Raw:
+    """a value that is neither a number nor an array"""
+    def __init__(self, sqf):
+        self.sqf = sqf
+
+
+def na_f32(x):
+    if x != x or x in (float("inf"), float("-inf")):
+        return x
+    try:
+        return struct.unpack("f", struct.pack("f", x))[0]
+    except OverflowError:
+        return float("inf") if x > 0 else float("-inf")
+
+
+def na_num(text):
+    return Num(text, na_f32(float(text)))
+
+
+NA_TAME = [na_num(t) for t in ("0", "1", "2", "3", "-1", "-2", "0.5", "-0.25", "1.5", "7", "10", "0.1", "100", "-3.75", "4", "5", "6", "-0.7")]
+NA_SPECIAL = [na_num("1e20"), na_num("-1e20"), na_num("3e38"), na_num("1e-30"), na_num("16777216"), na_num("123456.7"),
+              Num("(1e38 * 10)", float("inf")), Num("(-1e38 * 10)", float("-inf")), Num("(sqrt -1)", float("nan"))]
+# every kind of value that is not a number; arrays among them (an array where a number has to stand)
+NA_BAD = [Raw("nil"), Raw('"a"'), Raw('""'), Raw('"1"'), Raw("true"), Raw("false"), [], [na_num("1")], [[na_num("1"), na_num("2")]], Raw("{}"),
+          Raw("{1}"), Raw("objNull"), Raw("grpNull"), Raw("configNull"), Raw("scriptNull"), Raw("west"), Raw("missionNamespace"),
+          Raw("createHashMap"), Raw('(text "a")'), Raw("configFile"), Raw("(if true)")]
+NA_NOROW = [Raw("nil"), Raw('"a"'), na_num("5"), Raw("objNull"), Raw("true"), []]       # what can stand where a row has to stand
+
+NA_OPS = {      # name -> (operand kinds, None = unary)
+    "matrixTranspose": (None, "mat"), "matrixMultiply": ("mat", "mat"),
+    "vectorAdd": ("v3", "v3"), "vectorDiff": ("v3", "v3"), "vectorCrossProduct": ("v3", "v3"), "vectorDotProduct": ("v3", "v3"),
+    "vectorCos": ("v3", "v3"), "vectorDistance": ("v3", "v3"), "vectorDistanceSqr": ("v3", "v3"), "vectorMultiply": ("v3", "num"),
+    "vectorMagnitude": (None, "v3"), "vectorMagnitudeSqr": (None, "v3"), "vectorNormalized": (None, "v3"),
+    "distance": ("v23", "v23"), "distance2D": ("v23", "v23"),
+}
+
+
+def na_sqf(t):
+    return "[" + ",".join(na_sqf(x) for x in t) + "]" if isinstance(t, list) else t.sqf
+
+
+def na_json(t):
+    if isinstance(t, list):
+        return [na_json(x) for x in t]
+    return {"n": t.sqf, "v": repr(t.val)} if isinstance(t, Num) else {"x": t.sqf}
+
+
+def na_from_json(j):
+    if isinstance(j, list):
+        return [na_from_json(x) for x in j]
+    return Num(j["n"], float(j["v"])) if "n" in j else Raw(j["x"])
+
+
+def na_show(t):
+    """the argument as a reader sees it (numbers by value)"""
+    if isinstance(t, list):
+        return "[" + ",".join(na_show(x) for x in t) + "]"
+    return ("%g" % t.val) if isinstance(t, Num) else t.sqf
+
+
+def na_malformed(kind, t):
+    """None when t is a well-formed operand of this kind, else what is wrong with it"""
+    if kind == "num":
+        return None if isinstance(t, Num) else "not a number"
+    if not isinstance(t, list):
+        return "not an array"
+    if kind in ("v3", "v23"):
+        lo, hi = (3, 3) if kind == "v3" else (2, 3)
+        if not lo <= len(t) <= hi:
+            return "%d elements where %s are required" % (len(t), "3" if lo == hi else "2 or 3")
+        for j, x in enumerate(t):
+            if not isinstance(x, Num):
+                return "element %d (%s) is not a number" % (j, na_show(x))
+        return None
+    if len(t) == 0:
+        return "no rows"
+    for i, row in enumerate(t):
+        if not isinstance(row, list):
+            return "row %d (%s) is not an array" % (i, na_show(row))
+    if len(t[0]) == 0:
+        return "empty rows"
+    for i, row in enumerate(t):
+        if len(row) != len(t[0]):
+            return "row %d has %d elements, row 0 has %d" % (i, len(row), len(t[0]))
+        for j, x in enumerate(row):
+            if not isinstance(x, Num):
+                return "element %d of row %d (%s) is not a number" % (j, i, na_show(x))
+    return None
+
+
+def na_leaf(val, scale):
+    """expected number with the magnitude its rounding error is measured against; None = not compared (beyond float32's range,
+    or computed from inf / NaN: only that a number stands there)"""
+    if scale != scale or scale > 1e37:
+        return None
+    return (na_f32(val), scale)
+
+
+def na_sum(terms):
+    acc = 0.0
+    for t in terms:
+        acc = na_f32(acc + t)
+    return na_leaf(acc, max([abs(t) for t in terms] + [0.0]))
+
+
+def na_expect(op, args):
+    """-> ("reject", why) | ("value", tree of leaves)"""
+    kinds = [k for k in NA_OPS[op] if k is not None]
+    for pos, (k, a) in enumerate(zip(kinds, args)):
+        bad = na_malformed(k, a)
+        if bad:
+            return ("reject", ("%s operand: " % (["left", "right"][pos] if len(kinds) == 2 else "the")) + bad)
+    vals = [[[x.val for x in row] for row in a] if k == "mat" else ([x.val for x in a] if k != "num" else a.val) for k, a in zip(kinds, args)]
+    prod = lambda a, b: na_f32(a * b)
+    if op == "matrixTranspose":
+        m = vals[0]
+        return ("value", [[(m[i][j], abs(m[i][j])) for i in range(len(m))] for j in range(len(m[0]))])
+    if op == "matrixMultiply":
+        l, r = vals
+        if len(l[0]) != len(r):
+            return ("reject", "the left matrix has %d columns, the right one %d rows" % (len(l[0]), len(r)))
+        return ("value", [[na_sum([prod(l[i][k], r[k][j]) for k in range(len(r))]) for j in range(len(r[0]))] for i in range(len(l))])
+    if op in ("vectorAdd", "vectorDiff"):
+        l, r = vals
+        s = 1.0 if op == "vectorAdd" else -1.0
+        return ("value", [na_leaf(l[i] + s * r[i], max(abs(l[i]), abs(r[i]))) for i in range(3)])
+    if op == "vectorMultiply":
+        l, r = vals
+        return ("value", [na_leaf(l[i] * r, abs(l[i] * r)) for i in range(3)])
+    if op == "vectorDotProduct":
+        l, r = vals
+        return ("value", na_sum([prod(l[i], r[i]) for i in range(3)]))
+    if op == "vectorCrossProduct":
+        l, r = vals
+        return ("value", [na_sum([prod(l[a], r[b]), -prod(l[b], r[a])]) for a, b in ((1, 2), (2, 0), (0, 1))])
+    # the remaining ones take roots / quotients: compared on moderate numbers only
+    flat = [x for v in vals for x in (v if isinstance(v, list) else [v])]
+    tame = all(x == x and abs(x) <= 1e6 for x in flat)
+    pad = lambda v: (list(v) + [0.0, 0.0, 0.0])[:3]
+    shape = {"vectorNormalized": [None, None, None]}.get(op)
+    if not tame:
+        return ("value", shape)
+    if op in ("vectorMagnitude", "vectorMagnitudeSqr", "vectorNormalized"):
+        v = vals[0]
+        sq = sum(x * x for x in v)
+        if op == "vectorMagnitudeSqr":
+            return ("value", na_leaf(sq, sq))
+        mag = sq ** 0.5
+        if op == "vectorMagnitude":
+            return ("value", na_leaf(mag, mag))
+        return ("value", [na_leaf(0.0, 0.0)] * 3 if sq == 0 else ([na_leaf(x / mag, 1.0) for x in v] if na_f32(sq) > 1e-30 else shape))
+    l, r = pad(vals[0]), pad(vals[1])
+    if op == "vectorCos":
+        den = (sum(x * x for x in l) ** 0.5) * (sum(x * x for x in r) ** 0.5)
+        return ("value", na_leaf(sum(a * b for a, b in zip(l, r)) / den, 1.0) if den > 1e-12 else None)
+    n = 2 if op == "distance2D" else 3
+    sq = sum((a - b) ** 2 for a, b in list(zip(l, r))[:n])
+    # a difference of nearly equal numbers carries the rounding of the operands
+    scale = max(abs(x) for x in l + r)
+    if op == "vectorDistanceSqr":
+        return ("value", na_leaf(sq, max(sq, scale * scale)))
+    return ("value", na_leaf(sq ** 0.5, max(sq ** 0.5, scale)))
+
+
+NUM_TOKEN = re.compile(r"[-+]?(?:nan|inf|(?:[0-9]+\.?[0-9]*|\.[0-9]+)(?:e[-+]?[0-9]+)?)")
+
+
+def na_parse(text):
+    """printed value -> tree of floats; None when anything but numbers and arrays stands in it"""
+    pos = [0]
+
+    def item():
+        if text.startswith("[", pos[0]):
+            pos[0] += 1
+            out = []
+            if text.startswith("]", pos[0]):
+                pos[0] += 1
+                return out
+            while True:
+                out.append(item())
+                if text.startswith(",", pos[0]):
+                    pos[0] += 1
+                elif text.startswith("]", pos[0]):
+                    pos[0] += 1
+                    return out
+                else:
+                    raise ValueError(text)
+        m = NUM_TOKEN.match(text, pos[0])
+        if not m:
+            raise ValueError(text)
+        pos[0] = m.end()
+        return float(m.group(0))
+    try:
+        t = item()
+        return t if pos[0] == len(text) else None
+    except ValueError:
+        return None
+
+
+def na_same(exp, got):
+    """the first difference between the expected tree of leaves and the printed tree, None when there is none"""
+    if isinstance(exp, list):
+        if not isinstance(got, list) or len(got) != len(exp):
+            return "an array of %d elements is expected here, found %s" % (len(exp), "a number" if not isinstance(got, list) else "%d" % len(got))
+        for e, g in zip(exp, got):
+            d = na_same(e, g)
+            if d:
+                return d
+        return None
+    if isinstance(got, list):
+        return "a number is expected where an array stands"
+    if exp is None:
+        return None
+    val, scale = exp
+    if val != val:
+        return None if got != got else "NaN expected, found %g" % got
+    if val in (float("inf"), float("-inf")) or got != got or got in (float("inf"), float("-inf")):
+        return None if got == val else "%g expected, found %g" % (val, got)
+    return None if abs(got - val) <= 2e-5 * max(scale, abs(val)) + 1e-44 else "%g expected, found %g" % (val, got)
+
+
+def na_has_number(t):
+    return any(na_has_number(x) for x in t) if isinstance(t, list) else True
+
+
+class NCase:
+    def __init__(self, sub, op, args, twice=False):
+        self.sub, self.op, self.args, self.twice = sub, op, args, twice
+
+    def sqf(self):
+        a = [na_sqf(x) if isinstance(x, list) else "(" + x.sqf + ")" for x in self.args]
+        if len(a) == 1:
+            return ("%s %s %s" % (self.op, self.op, a[0])) if self.twice else "%s %s" % (self.op, a[0])
+        return "%s %s %s" % (a[0], self.op, a[1])
+
+    def to_json(self):
+        return {"kind": "numarr:" + self.sub, "sqf": self.sqf(), "numarr": {"sub": self.sub, "op": self.op, "args": [na_json(a) for a in self.args], "twice": self.twice}}
+
+    @staticmethod
+    def from_json(j):
+        n = j["numarr"]
+        return NCase(n.get("sub", "replay"), n["op"], [na_from_json(a) for a in n["args"]], n.get("twice", False))
+
+    def judge(self, impl):
+        """-> None | (what, expected as text; None = no verdict about the implementation)"""
+        exp = na_expect(self.op, self.args)
+        if self.twice and exp[0] == "value":
+            exp = ("value", [[(x.val, abs(x.val)) for x in row] for row in self.args[0]])     # transposed twice: the matrix itself
+        shown = "%s on %s" % (self.op + (" twice" if self.twice else ""), " and ".join(na_show(a) for a in self.args))
+        if impl.split("\t")[0].split(";")[0].split(" ")[0] in CRASHY or impl.startswith("HARNESS"):
+            return ("%s killed the process or left the VM by a C++ exception: %s" % (shown, impl.replace("\t", " ")),
+                    "a value or a diagnostic" if exp[0] == "value" else "a diagnostic or nil / [] (%s)" % exp[1])
+        f = impl.split(";")
+        if len(f) != 3 or f[0] == "PARSEFAIL":
+            return ("MACHINERY: the generated script was not run: " + impl, None)
+        got = None if f[2] == "NONE" else V.unhx(f[2]).decode("latin-1")
+        if exp[0] == "reject":
+            if f[1] != "-" or got in (None, "nil", "[]"):
+                return None
+            tree = na_parse(got)
+            how = ("numbers that no argument determines - an element that is not a number was read as one (type confusion: its storage taken for a float)"
+                   if tree is not None and na_has_number(tree) else "a value although this argument has no result")
+            return ("%s: the arguments are no %s (%s), yet the call returned %s without any diagnostic: %s"
+                    % (shown, "matrices that can be multiplied / transposed" if self.op.startswith("matrix") else "vectors of numbers", exp[1], got[:160], how),
+                    "a diagnostic or nil / []")
+        if f[0] != "-1" or f[1] != "-":
+            return ("%s: well-formed arguments, yet the call ended with result %s and diagnostics %s" % (shown, f[0], f[1]), "the value, no diagnostic")
+        tree = None if got is None else na_parse(got)
+        if tree is None:
+            return ("%s: well-formed arguments, the call returned %s (no number structure)" % (shown, got if got is None else got[:160]), "the value")
+        d = na_same(exp[1], tree)
+        if d:
+            return ("%s: the call returned %s, which is not the result for these numbers (%s)" % (shown, got[:200], d), "the value computed from the numbers")
+        return None
+
+
+def numarr_cases(rng):
+    cs = []
+    tame = lambda: rng.choice(NA_TAME)
+    anynum = lambda: rng.choice(NA_TAME + NA_SPECIAL) if rng.random() < 0.35 else rng.choice(NA_TAME)
+    mat = lambda n, k, pick=tame: [[pick() for _ in range(k)] for _ in range(n)]
+
+    def put(m, i, j, x):
+        c = [list(r) for r in m]
+        c[i][j] = x
+        return c
+
+    def bads(full):
+        return NA_BAD if full else [NA_BAD[0]] + rng.sample(NA_BAD[1:], 4)
+
+    def broken_matrices(m, full):
+        """(what, matrix) for every way this well-formed matrix stops being one at one place"""
+        out = []
+        for i in range(len(m)):
+            for j in range(len(m[0])):
+                for b in bads(full):
+                    out.append(("elem", put(m, i, j, b)))
+            out.append(("arity", m[:i] + [m[i][:-1]] + m[i + 1:]))
+            out.append(("arity", m[:i] + [m[i] + [tame()]] + m[i + 1:]))
+            for b in NA_NOROW:
+                out.append(("row", m[:i] + [b] + m[i + 1:]))
+        return out
+
+    degenerate = [[], [[]], [[], []], [tame(), tame(), tame()], [Raw("nil")], [[[tame()]]], [Raw('"a"')], [[tame()], []], [[], [tame()]]]
+    # ---- matrixTranspose: every shape up to 4 x 4, every position
+    for n in range(1, 5):
+        for k in range(1, 5):
+            m = mat(n, k)
+            cs.append(NCase("ok", "matrixTranspose", [m]))
+            cs.append(NCase("ok", "matrixTranspose", [mat(n, k, anynum)]))
+            cs.append(NCase("ok", "matrixTranspose", [m], twice=True))
+            for what, b in broken_matrices(m, n * k <= 6):
+                cs.append(NCase(what, "matrixTranspose", [b]))
+    for d in degenerate:
+        cs.append(NCase("degenerate", "matrixTranspose", [d]))
+    # ---- matrixMultiply: n x k times k x m, the broken place in the left or in the right operand, or in both
+    shapes = [(n, k, m) for n in (1, 2, 3) for k in (1, 2, 3) for m in (1, 2, 3)] + [(4, 1, 4), (1, 4, 1), (4, 4, 4), (2, 4, 3)]
+    for n, k, m in shapes:
+        l, r = mat(n, k), mat(k, m)
+        cs.append(NCase("ok", "matrixMultiply", [l, r]))
+        cs.append(NCase("ok", "matrixMultiply", [mat(n, k, anynum), mat(k, m, anynum)]))
+        full = max(n, k, m) <= 2
+        bl, br = broken_matrices(l, full), broken_matrices(r, full)
+        for what, b in bl:
+            cs.append(NCase(what + "-left", "matrixMultiply", [b, r]))
+        for what, b in br:
+            cs.append(NCase(what + "-right", "matrixMultiply", [l, b]))
+        for _ in range(3):
+            cs.append(NCase("both", "matrixMultiply", [rng.choice(bl)[1], rng.choice(br)[1]]))
+        for k2 in (1, 2, 3, 4):
+            if k2 != k:
+                cs.append(NCase("inner-dimension", "matrixMultiply", [l, mat(k2, m)]))
+        for d in rng.sample(degenerate, 3):
+            cs.append(NCase("degenerate", "matrixMultiply", [d, r]))
+            cs.append(NCase("degenerate", "matrixMultiply", [l, d]))
+    # ---- vectors and positions
+    for op, (lk, rk) in sorted(NA_OPS.items()):
+        if op.startswith("matrix"):
+            continue
+        kinds = [x for x in (lk, rk) if x is not None]
+
+        def good(kind, pick=tame):
+            if kind == "num":
+                return pick()
+            return [pick() for _ in range(3 if kind == "v3" else rng.choice((2, 3)))]
+
+        for _ in range(8):
+            cs.append(NCase("ok", op, [good(x) for x in kinds]))
+        for _ in range(4):
+            cs.append(NCase("ok", op, [good(x, anynum) for x in kinds]))
+        cs.append(NCase("ok", op, [good(x, lambda: NA_TAME[0]) for x in kinds]))             # zero vectors
+        same = good(kinds[0])
+        if len(kinds) == 2 and kinds[1] != "num":
+            cs.append(NCase("ok", op, [same, list(same)]))                                   # a vector with itself
+        for p, kind in enumerate(kinds):
+            if kind == "num":
+                continue
+            for ln in ((3,) if kind == "v3" else (2, 3)):
+                base = [good(x) for x in kinds]
+                base[p] = [tame() for _ in range(ln)]
+                for j in range(ln):
+                    for b in NA_BAD:
+                        a = list(base)
+                        a[p] = base[p][:j] + [b] + base[p][j + 1:]
+                        cs.append(NCase("elem", op, a))
+            for ln in (0, 1, 2, 4, 5, 9):
+                if not (ln == 2 and kind == "v23"):
+                    a = [good(x) for x in kinds]
+                    a[p] = [tame() for _ in range(ln)]
+                    cs.append(NCase("arity", op, a))
+            for d in ([[tame(), tame(), tame()]], [[tame()], [tame()], [tame()]], [Raw("nil")] * 3):
+                a = [good(x) for x in kinds]
+                a[p] = d
+                cs.append(NCase("degenerate", op, a))
+        if len(kinds) == 2 and kinds[1] != "num":
+            for _ in range(4):
+                a = [good(x) for x in kinds]
+                for p in (0, 1):
+                    a[p] = list(a[p])
+                    a[p][rng.randrange(len(a[p]))] = rng.choice(NA_BAD)
+                cs.append(NCase("both", op, a))
+    return cs
+
+
+NUMARR_RULE = ("Numeric-structure family (implementation-only oracle, no model): matrixTranspose, matrixMultiply, the eleven vector* operators and "
+               "distance / distance2D on ARRAY operands. From every well-formed operand (matrices of every shape up to 4 x 4 resp. n x k times k x m "
+               "with n, k, m <= 3 and some with 4; 3D vectors; positions of 2 or 3 numbers; moderate numbers, also 1e20, 3e38, 1e-30, +-inf, NaN) the "
+               "generator derives every argument that is broken at ONE place: each element of each row (first, inner, last row and column; one-row and "
+               "one-column matrices; left operand, right operand, both) replaced by each kind of value that is not a number (nil, strings, booleans, "
+               "arrays, code, null handles, side, namespace, hashmap, text, config, if-type), each row shortened / lengthened / replaced by a value that is "
+               "no array, plus empty / flat / too deep arguments and inner dimensions that do not fit; vectors with 0, 1, 2, 4, 5, 9 elements. "
+               "Oracle: the well-formed calls return the mathematical result (computed in float32 by the generator, compared through the printed "
+               "digits; matrixTranspose twice returns the matrix; roots and quotients compared for moderate numbers only); every other call comes back "
+               "with a diagnostic or nil / [] - a crash, or a result that holds numbers, is a concrete violation (an element that is no number was read "
+               "as a float). ")
+
+
+def run_numarr(run, himpl, ncases):
+    """runs the family, reports at most 3 violations per operator (the shortest inputs); -> statistics for the evidence"""
+    _, impl, _ = V.run_lines_parallel([himpl], ["X\t-\t%s" % V.hx(c.sqf()) for c in ncases], timeout=6000)
+    kinds, bad, rejected_with = {}, {}, {"diagnostic": 0, "nil-or-empty": 0}
+    for c, il in zip(ncases, impl):
+        k = "numarr-" + c.sub
+        kinds[k] = kinds.get(k, 0) + 1
+        f = il.split(";")
+        if len(f) == 3 and na_expect(c.op, c.args)[0] == "reject":
+            rejected_with["diagnostic" if f[1] != "-" else "nil-or-empty"] += 1
+        v = c.judge(il)
+        if v is not None:
+            bad.setdefault(c.op, []).append((len(c.sqf()), c, il, v))
+    for op in sorted(bad):
+        for _, c, il, (what, expected) in sorted(bad[op], key=lambda x: x[0])[:3]:
+            rep = c.to_json()
+            rep.update({"impl_out": il, "expected": expected, "cases_of_this_operator_failing": len(bad[op])})
+            run.violation(what, rep, found_input=expected is not None)
+    per_op = {}
+    for c in ncases:
+        per_op[c.op] = per_op.get(c.op, 0) + 1
+    return kinds, {"cases": len(ncases), "per_operator": per_op, "well_formed": sum(1 for c in ncases if na_expect(c.op, c.args)[0] == "value"),
+                   "rejected_by": rejected_with, "failing": {op: len(v) for op, v in bad.items()},
+                   "values_that_are_no_number": [na_show(b) for b in NA_BAD]}
+
+
 # ------------------------------------------------------------------------------------------------ main
 def asan_fc_flavour():
     """ASan + UBSan + float-cast-overflow (GCC's -fsanitize=undefined leaves the float -> int check out)"""
@@ -772,12 +1208,15 @@ def main(replay=None):
     registry = registry_full.read_registry()
     flags = "".join("1" if run.known.has(PID, k) else "0" for k in SWITCHES)
 
-    cases, corpus_sweep = [], []
+    cases, corpus_sweep, ncases = [], [], []
     if replay:
         j = json.load(open(replay))["replay"]
         if j.get("sweep"):
             cases = []
             sweep = [tuple(j["sweep"])]
+        elif j.get("numarr"):
+            ncases = [NCase.from_json(j)]
+            sweep = []
         else:
             cases.append(Case.from_json(j))
             sweep = []
@@ -794,6 +1233,10 @@ def main(replay=None):
                 cases.append(c)
         cases += gen_cases(rng, thorough)
         sweep = None
+        # its own generator state: the pools drawn above and the sweep below stay what they were for a given seed
+        import random
+        for rnd in range(4 if thorough else 1):
+            ncases += numarr_cases(random.Random("numarr-%d-%d" % (run.seed, rnd)))
 
     # ---- modelled operators: implementation and model on the same arguments
     ilines = [c.impl_line() for c in cases]
@@ -832,6 +1275,13 @@ def main(replay=None):
             ndis += 1
             rep["broken"] = BROKEN
             run.violation("implementation and guard model disagree: " + what, rep, found_input=False)
+
+    # ---- numeric structures (matrices, vectors, positions): implementation-only oracle
+    na_stats = {}
+    if ncases:
+        na_kinds, na_stats = run_numarr(run, himpl, ncases)
+        kinds.update(na_kinds)
+        distinct.update((c.sqf(), "", None) for c in ncases)
 
     # ---- registry-wide sweep: exploration, not proof
     sw_stats = {}
@@ -889,17 +1339,19 @@ def main(replay=None):
 
     for p in problems:
         run.violation("proof obligation not discharged: " + p, {"broken": p, "theorems": run.cov["theorems"]}, found_input=False)
-    run.cov["evaluations"] = len(cases)
+    run.cov["evaluations"] = len(cases) + len(ncases)
     run.cov["distinct_nontrivial"] = len(distinct)
     run.cov["rule"] = ("modelled operators only (select x4, resize, deleteRange, deleteAt, set, pushBack, pushBackUnique, append, sort, param, params, "
                        "format, toArray, toString, splitString, selectMax, selectMin, selectRandom, toFixed x2, configClasses, configProperties, "
                        "fromAssembly__, BOM sniff of read_file_from_disk): boundary pools (empty / 1 / 2 / 3 / 5 / 200 element arrays, wrong inner types "
                        "and arity, -2147483904 .. 1e30, halves, +-inf, NaN, empty strings, null handles); every case runs in a forked child of the "
                        "harness and is compared with the extracted guard model on result class, diagnostics (level:code) and the printed value; "
-                       "evaluations = cases of modelled operators; a case is trivial when it is an in-range select; distinct by script text / file bytes. "
+                       "evaluations = cases of modelled operators + cases of the numeric-structure family; a case is trivial when it is an in-range select; distinct by script text / file bytes. "
                        "sort also runs on rows whose nested arrays (depth 2 and 3) differ in length, element type or depth, in both row orders and both directions; "
                        "a negative-index / negative-size diagnostic for arguments without a negative number or NaN is a concrete violation (float -> int conversion left the range of int). "
+                       + NUMARR_RULE +
                        "The registry sweep is reported separately under 'sweep_exploration' and is NOT part of the proof.")
+    run.cov["numeric_structure_family"] = na_stats
     run.cov["input_distribution"] = kinds
     run.cov["samples"] = samples
     run.cov["disagreements_checked"] = ndis
